@@ -702,14 +702,18 @@ class Extractor:
     def st_If(self, s):
         decision = self.static_test(s.test)
         test_term = self.ev(s.test)
+        # `if not c` is recorded as the negative arm of `c` (frames carry the un-negated test)
+        flip = False
+        while test_term[0] == "op" and test_term[1] == "not":
+            test_term, flip = test_term[2], not flip
         if decision:
-            self.frames.append(("py", test_term, True))
+            self.frames.append(("py", test_term, not flip))
             try:
                 self.walk_body(s.body)
             finally:
                 self.frames.pop()
         else:
-            self.frames.append(("py", test_term, False))
+            self.frames.append(("py", test_term, flip))
             try:
                 self.walk_body(s.orelse)
             finally:
@@ -736,6 +740,8 @@ class Extractor:
         known = self._concrete_truth(t)
         if known is not None:
             return known
+        if t[0] == "op" and t[1] == "not":
+            return not self._decide_term(t[2])
         if t[0] == "op" and t[1] == "and":
             for x in t[2:]:
                 if not self._decide_term(x):
@@ -1412,7 +1418,10 @@ class Extractor:
         if not any(s[0] == "b" for s in subterms(t)):
             # a python conditional expression is always generation-level: decide it like an `if`
             return self.ev(e.body) if self._decide_term(t) else self.ev(e.orelse)
-        return ("ife", t, self.ev(e.body), self.ev(e.orelse))
+        body, orelse = self.ev(e.body), self.ev(e.orelse)
+        while t[0] == "op" and t[1] == "not":  # (a if not c else b) is (b if c else a)
+            t, body, orelse = t[2], orelse, body
+        return ("ife", t, body, orelse)
 
     def ex_NamedExpr(self, e):
         v = self.ev(e.value)
